@@ -21,7 +21,7 @@ ASSUMPTIONS = ['thread cases: preemption happens only at the scheduler\'s yield 
                'file operations, source lines of the watched commit/poll/load functions); code between two yield points is atomic; '
                'C-level races inside BTrees/persistent/pickle are not explored',
                'sequential cases: interleaving of whole API calls in one thread']
-BUDGET = {'quick': {'examples': 10000, 'workers': 8},
+BUDGET = {'quick': {'examples': 12000, 'workers': 8},
           'thorough': {'examples': 80000, 'workers': 16}}
 
 
@@ -127,7 +127,7 @@ def strategy(tier, weights='mixed'):
         # one share of write-heavy programs (conflicting, retried and savepoint commits: what a failed commit leaves in
         # the connection's cache is part of what the next transaction reads)
         heavy = _seq_strategy(n, 'write-heavy')
-        return st.integers(0, 99).flatmap(lambda w: seq if w < 40 else heavy if w < 50 else race_strategy() if w < 63
+        return st.integers(0, 99).flatmap(lambda w: seq if w < 34 else heavy if w < 44 else race_strategy() if w < 56
                                           else thread_strategy(roles))
     return st.integers(0, 99).flatmap(lambda w: seq if w < 46 else race_strategy() if w < 54 else thread_strategy(roles))
 
